@@ -185,4 +185,232 @@ Section Codec.
   Proof.
     intros p sc H. apply (f_equal (@length Z)) in H. rewrite encode_segment_length in H. simpl in H. lia.
   Qed.
+
+  (* ------------------------------------------------------------------ the loop on valid streams *)
+  Definition seg := (list Z * bool)%type.
+  Definition encseg (s : seg) : list Z := encode_segment (fst s) (snd s).
+  Definition wire (segs : list seg) : list Z := concat (map encseg segs).
+  Definition payloads (segs : list seg) : list Z := concat (map (@fst (list Z) bool) segs).
+  Definition segs_ok (segs : list seg) : Prop := Forall (fun s : seg => seg_ok (fst s)) segs.
+  Definition frames_bytes (fs : list frame) : list Z := concat (map enc fs).
+
+  Definition partial (tail : list Z) : Prop :=
+    tail = [] \/ exists p sc r, seg_ok p /\ tail ++ r = encode_segment p sc /\ r <> [] /\ tail <> [].
+
+  Lemma parse1_valid_prefix : forall fs x y, Forall wf fs -> x ++ y = frames_bytes fs ->
+    parse1 x = NeedMore \/
+    exists d h b fs' x', fs = (d, h, b) :: fs' /\ parse1 x = Frame h b x' /\ x' ++ y = frames_bytes fs'.
+  Proof.
+    intros fs x y Hwf H. destruct fs as [|[[d h] b] fs'].
+    - unfold frames_bytes in H. simpl in H. apply app_eq_nil in H. destruct H as [-> _]. left. reflexivity.
+    - inversion Hwf; subst.
+      assert (Hp : parse1 (x ++ y) = Frame h b (frames_bytes fs')).
+      { rewrite H. unfold frames_bytes. simpl. apply parse1_enc. assumption. }
+      destruct (parse1 x) eqn:E.
+      + left. reflexivity.
+      + rewrite (parse1_app_bad _ y _ E) in Hp. discriminate.
+      + rewrite (parse1_app_frame _ y _ _ _ E) in Hp. inversion Hp; subst.
+        right. exists d, h, b, fs', rest. auto.
+  Qed.
+
+  Lemma parse_all_valid_prefix : forall fs x y, Forall wf fs -> x ++ y = frames_bytes fs ->
+    exists done rem x', parse_all x = (Live x', map deliver done) /\ fs = done ++ rem /\
+                        x' ++ y = frames_bytes rem /\ parse1 x' = NeedMore.
+  Proof.
+    induction fs as [|f fs IH]; intros x y Hwf H.
+    - destruct (parse1_valid_prefix [] x y Hwf H) as [E|(d & h & b & fs' & x' & E & _)]; [|discriminate].
+      exists [], [], x. rewrite (parse_all_needmore _ E). auto.
+    - destruct (parse1_valid_prefix (f :: fs) x y Hwf H) as [E|(d & h & b & fs' & x' & E1 & E2 & E3)].
+      + exists [], (f :: fs), x. rewrite (parse_all_needmore _ E). auto.
+      + inversion E1; subst. inversion Hwf; subst.
+        destruct (IH x' y H3 E3) as (done & rem & x'' & A & B & C & D).
+        exists ((d, h, b) :: done), rem, x''. rewrite (parse_all_frame _ _ _ _ E2), A. subst. auto.
+  Qed.
+
+  Lemma cloop_cons : forall f io fb c, io <> [] ->
+    cloop (S f) io fb c =
+      match parse_seg io with
+      | SNeed => (CLive io fb false, [])
+      | SBad => (CDead, [Defunct R_CRC])
+      | SOk payload rest =>
+        let fb1 := fb ++ payload in
+        match parse1 fb1 with
+        | NeedMore => cloop f rest fb1 true
+        | Bad r => (CDead, [Defunct r])
+        | Frame h body fb2 => let '(st, evs) := cloop f rest fb2 true in (st, Deliver h body :: evs)
+        end
+      end.
+  Proof. intros f io fb c H. destruct io; [congruence|reflexivity]. Qed.
+
+  Lemma cloop_nil : forall f fb c,
+    cloop (S f) [] fb c =
+      if c then match parse_all fb with (Live fb', evs) => (CLive [] fb' true, evs) | (Dead, evs) => (CDead, evs) end
+      else (CLive [] fb false, []).
+  Proof. reflexivity. Qed.
+
+  Lemma cloop_inv : forall segs fuel tail fb c fs y,
+    segs_ok segs -> partial tail -> Forall wf fs ->
+    fb ++ payloads segs ++ y = frames_bytes fs ->
+    (length (wire segs ++ tail) < fuel)%nat ->
+    exists done rem fb' c',
+      cloop fuel (wire segs ++ tail) fb c = (CLive tail fb' c', map deliver done) /\
+      fs = done ++ rem /\ fb' ++ y = frames_bytes rem /\
+      (tail = [] -> (segs <> [] \/ c = true) -> parse1 fb' = NeedMore /\ c' = true) /\
+      (tail = [] -> segs = [] -> c = false -> fb' = fb /\ c' = false /\ done = []) /\
+      (tail <> [] -> c' = false).
+  Proof.
+    induction segs as [|[p sc] segs IH]; intros fuel tail fb c fs y Hok Hpart Hwf Hbytes Hfuel.
+    - unfold wire, payloads in *. simpl in *.
+      destruct fuel as [|f]; [lia|].
+      destruct Hpart as [->|(p & sc & r & Hp & Hr1 & Hr2 & Hr3)].
+      + rewrite cloop_nil. destruct c.
+        * destruct (parse_all_valid_prefix fs fb y Hwf Hbytes) as (done & rem & x' & A & B & C & D).
+          rewrite A. exists done, rem, x', true. repeat split; auto; intros; try discriminate; congruence.
+        * exists [], fs, fb, false. repeat split; auto; intros; try congruence;
+            match goal with H : _ \/ _ |- _ => destruct H; congruence end.
+      + rewrite cloop_cons by assumption. rewrite (parse_seg_prefix p sc tail r Hp Hr1 Hr2).
+        exists [], fs, fb, false. repeat split; auto; intros; congruence.
+    - inversion Hok; subst. simpl in H1.
+      assert (Hio : wire (@cons seg (p, sc) segs) ++ tail = encode_segment p sc ++ (wire segs ++ tail)).
+      { unfold wire. simpl. unfold encseg at 1. simpl. rewrite app_assoc. reflexivity. }
+      rewrite Hio in Hfuel |- *.
+      destruct fuel as [|f]; [lia|].
+      assert (Hne : encode_segment p sc ++ (wire segs ++ tail) <> []).
+      { intro E. apply app_eq_nil in E. destruct E as [E _]. eapply encode_segment_nonempty; exact E. }
+      rewrite cloop_cons by assumption. rewrite parse_seg_enc by assumption. cbv zeta.
+      assert (Hb' : (fb ++ p) ++ (payloads segs ++ y) = frames_bytes fs).
+      { rewrite <- Hbytes. unfold payloads. simpl. rewrite <- !app_assoc. reflexivity. }
+      assert (Hf' : (length (wire segs ++ tail) < f)%nat).
+      { rewrite app_length in Hfuel. pose proof (encode_segment_length p sc). unfold hlc in *. destruct compression; lia. }
+      destruct (parse1_valid_prefix fs (fb ++ p) _ Hwf Hb') as [E|(d & h & b & fs' & x' & E1 & E2 & E3)].
+      + rewrite E.
+        destruct (IH f tail (fb ++ p) true fs y H2 Hpart Hwf) as (done & rem & fb' & c' & A & B & C & D1 & D2 & D3).
+        { rewrite <- app_assoc. rewrite <- app_assoc in Hb'. exact Hb'. }
+        { exact Hf'. }
+        exists done, rem, fb', c'. repeat split; auto; intros; try discriminate.
+        * apply D1; auto.
+        * apply D1; auto.
+      + rewrite E2. subst fs. assert (Hwf' : Forall wf fs') by (inversion Hwf; assumption).
+        destruct (IH f tail x' true fs' y H2 Hpart Hwf') as (done & rem & fb' & c' & A & B & C & D1 & D2 & D3).
+        { exact E3. }
+        { exact Hf'. }
+        rewrite A. exists ((d, h, b) :: done), rem, fb', c'. subst fs'. repeat split; auto; intros; try discriminate.
+        * apply D1; auto.
+        * apply D1; auto.
+  Qed.
+
+  Lemma wire_cons : forall s segs, wire (s :: segs) = encseg s ++ wire segs.
+  Proof. reflexivity. Qed.
+
+  Lemma wire_app : forall a b, wire (a ++ b) = wire a ++ wire b.
+  Proof. intros. unfold wire. rewrite map_app, concat_app. reflexivity. Qed.
+
+  Lemma payloads_app : forall a b, payloads (a ++ b) = payloads a ++ payloads b.
+  Proof. intros. unfold payloads. rewrite map_app, concat_app. reflexivity. Qed.
+
+  Definition head_partial (tail : list Z) (segs : list seg) : Prop :=
+    tail = [] \/ exists p sc segs' r, segs = (p, sc) :: segs' /\ seg_ok p /\ tail ++ r = encode_segment p sc /\ r <> [] /\ tail <> [].
+
+  Lemma head_partial_partial : forall tail segs, head_partial tail segs -> partial tail.
+  Proof.
+    intros tail segs [->|(p & sc & segs' & r & _ & A & B & C & D)]; [left; reflexivity|].
+    right. exists p, sc, r. auto.
+  Qed.
+
+  Lemma wire_split : forall segs q x, segs_ok segs -> q ++ x = wire segs ->
+    exists s1 s2 tail, segs = s1 ++ s2 /\ q = wire s1 ++ tail /\ tail ++ x = wire s2 /\ head_partial tail s2.
+  Proof.
+    induction segs as [|[p sc] segs IH]; intros q x Hok H.
+    - unfold wire in H. simpl in H. apply app_eq_nil in H. destruct H as [-> ->].
+      exists [], [], []. repeat split; auto. left. reflexivity.
+    - inversion Hok; subst. simpl in H2. rewrite wire_cons in H. unfold encseg in H. simpl in H.
+      assert (Hcase : (exists l, q = encode_segment p sc ++ l /\ wire segs = l ++ x) \/
+                      (exists l, l <> [] /\ encode_segment p sc = q ++ l /\ x = l ++ wire segs)).
+      { apply app_eq_app in H. destruct H as [l [[A B]|[A B]]].
+        - left. exists l. auto.
+        - destruct l as [|z l].
+          + left. exists []. rewrite app_nil_r in A. simpl in B. subst. rewrite app_nil_r. auto.
+          + right. exists (z :: l). repeat split; auto. discriminate. }
+      destruct Hcase as [(l & A & B)|(l & Hl & A & B)].
+      + destruct (IH l x H3 (eq_sym B)) as (s1 & s2 & tail & E1 & E2 & E3 & E4).
+        exists ((p, sc) :: s1), s2, tail. subst. repeat split; auto.
+        unfold wire. cbn [map concat]. unfold encseg at 2. cbn [fst snd]. apply app_assoc.
+      + exists [], ((p, sc) :: segs), q. repeat split; auto.
+        destruct q as [|z q]; [left; reflexivity|]. right.
+        exists p, sc, segs, l. repeat split; auto; try (symmetry; assumption); try (destruct H2; assumption); discriminate.
+  Qed.
+
+  Definition G (st : cstate) (segs : list seg) (fs : list frame) (future : list Z) : Prop :=
+    exists tail fb c, st = CLive tail fb c /\ tail ++ future = wire segs /\ fb ++ payloads segs = frames_bytes fs /\
+      (tail = [] -> c = true -> parse1 fb = NeedMore) /\ (tail = [] -> c = false -> fb = []) /\ head_partial tail segs.
+
+  Lemma frames_bytes_nonempty : forall f fs, Forall wf (f :: fs) -> parse1 (frames_bytes (f :: fs)) <> NeedMore.
+  Proof.
+    intros [[d h] b] fs H. inversion H; subst. unfold frames_bytes. simpl. rewrite parse1_enc by assumption. discriminate.
+  Qed.
+
+  Lemma run_cfeed_cons : forall st c cs,
+    run_cfeed st (c :: cs) = let '(st1, e1) := cfeed st c in let '(st2, e2) := run_cfeed st1 cs in (st2, e1 ++ e2).
+  Proof. reflexivity. Qed.
+
+  Lemma cfeed_live : forall io fb c chunk, cfeed (CLive io fb c) chunk = cloop (S (length (io ++ chunk))) (io ++ chunk) fb c.
+  Proof. reflexivity. Qed.
+
+  Lemma run_inv : forall chunks st segs fs, segs_ok segs -> Forall wf fs -> G st segs fs (concat chunks) ->
+    exists c, run_cfeed st chunks = (CLive [] [] c, map deliver fs).
+  Proof.
+    induction chunks as [|c0 cs IH]; intros st segs fs Hok Hwf (tail & fb & c & -> & Hw & Hb & Hc1 & Hc2 & Hp).
+    - simpl in *. rewrite app_nil_r in Hw.
+      assert (Ht : tail = []).
+      { destruct Hp as [Ht|(p & sc & segs' & r & E & _ & A & B & _)]; [assumption|exfalso].
+        assert (Hw' : tail = encode_segment p sc ++ wire segs') by (rewrite Hw, E; reflexivity).
+        apply (f_equal (@length Z)) in Hw'. apply (f_equal (@length Z)) in A. rewrite !app_length in *.
+        destruct r; [congruence|simpl in A; lia]. }
+      assert (Hw2 : wire segs = []) by (rewrite <- Hw; exact Ht).
+      assert (Hs : segs = []).
+      { destruct segs as [|[p sc] segs]; [reflexivity|exfalso].
+        assert (Hw' : encode_segment p sc ++ wire segs = []) by exact Hw2.
+        apply app_eq_nil in Hw'. destruct Hw' as [E _]. eapply encode_segment_nonempty; exact E. }
+      subst segs. unfold payloads in Hb. simpl in Hb. rewrite app_nil_r in Hb.
+      assert (Hfs : fs = []).
+      { destruct fs as [|f fs]; [reflexivity|exfalso]. destruct c.
+        - specialize (Hc1 Ht eq_refl). rewrite Hb in Hc1. eapply frames_bytes_nonempty; eassumption.
+        - specialize (Hc2 Ht eq_refl). pose proof (frames_bytes_nonempty f fs Hwf) as Hn.
+          rewrite <- Hb, Hc2 in Hn. apply Hn. reflexivity. }
+      subst fs. unfold frames_bytes in Hb. simpl in Hb. rewrite Ht, Hb. exists c. reflexivity.
+    - simpl concat in Hw. rewrite app_assoc in Hw.
+      destruct (wire_split segs (tail ++ c0) (concat cs) Hok Hw) as (s1 & s2 & tail' & E1 & E2 & E3 & E4).
+      subst segs. rewrite payloads_app in Hb.
+      assert (Hok1 : segs_ok s1) by (unfold segs_ok in *; apply Forall_app in Hok; tauto).
+      assert (Hok2 : segs_ok s2) by (unfold segs_ok in *; apply Forall_app in Hok; tauto).
+      destruct (cloop_inv s1 (S (length (tail ++ c0))) tail' fb c fs (payloads s2) Hok1 (head_partial_partial _ _ E4) Hwf)
+        as (done & rem & fb' & c' & A & B & C & D1 & D2 & D3).
+      { exact Hb. }
+      { rewrite E2. lia. }
+      rewrite <- E2 in A. rewrite run_cfeed_cons, cfeed_live, A.
+      assert (Hwf' : Forall wf rem) by (subst fs; apply Forall_app in Hwf; tauto).
+      destruct (IH (CLive tail' fb' c') s2 rem Hok2 Hwf') as (cf & Hrun).
+      { exists tail', fb', c'. repeat split; auto.
+        - intros Ht Hc. destruct (list_eq_dec Z.eq_dec s1 []) as [Hs1|Hs1].
+          + destruct c.
+            * apply D1; auto.
+            * destruct (D2 Ht Hs1 eq_refl) as (_ & F & _). congruence.
+          + apply D1; auto.
+        - intros Ht Hc. destruct (list_eq_dec Z.eq_dec s1 []) as [Hs1|Hs1].
+          + destruct c.
+            * destruct (D1 Ht (or_intror eq_refl)) as (_ & F). congruence.
+            * destruct (D2 Ht Hs1 eq_refl) as (F & _ & _). subst fb'.
+              apply Hc2; [|reflexivity]. subst s1 tail'. unfold wire in E2. simpl in E2.
+              apply app_eq_nil in E2. tauto.
+          + destruct (D1 Ht (or_introl Hs1)) as (_ & F). congruence. }
+      rewrite Hrun. exists cf. subst fs. rewrite map_app. reflexivity.
+  Qed.
+
+  Theorem roundtrip : forall (segs : list seg) (fs : list frame) (chunks : list (list Z)),
+    segs_ok segs -> Forall wf fs -> payloads segs = frames_bytes fs -> concat chunks = wire segs ->
+    exists c, run_cfeed (cinit) chunks = (CLive [] [] c, map deliver fs).
+  Proof.
+    intros segs fs chunks Hok Hwf Hp Hc. apply (run_inv chunks cinit segs fs Hok Hwf).
+    exists [], [], false. repeat split; auto. left. reflexivity.
+  Qed.
 End Codec.
